@@ -813,7 +813,7 @@ class E9Hostile(Engine):
                 except (RecursionError, MemoryError, SyntaxError, ValueError):
                     continue
             return self._bad(i, f"exception-type/{res['exc_type']}", f"internal error {res['exc_type']}: {res['exc_msg']}")
-        return Outcome("ok", digest=sha("\x00".join(texts))[:16], nontrivial=reached_emit > 0,
+        return Outcome("ok", digest=sha("\x00".join(case["texts"]))[:16], nontrivial=reached_emit > 0,
                        probes={f"result_{k}": v for k, v in kinds.items()})
 
     def _bad(self, i, cls, message) -> Outcome:
